@@ -1037,11 +1037,15 @@ class TupleConstructor(BuiltinConstructorType):
             # TODO: How do we handle completely generic tuples?
             # For now, we'll treat them as if they were empty tuples...
             return TupleType([])
+        # Several type arguments (``tuple[int, str]``) arrive as a TupleType
+        if isinstance(element_type, TupleType):
+            element_type = element_type.element_types
         # Assume single elements are actually just a tuple of length one
         if not isinstance(element_type, (tuple, set, list)):
             element_type = [element_type]
         element_type = [e.definition(self, e, None, [], [], location)
-                        for e in element_type if isinstance(e, BuiltinConstructorType)]
+                        if isinstance(e, BuiltinConstructorType) else e
+                        for e in element_type]
         result_type = TupleType(element_type)
         if arguments:
             result_type = specify_subtype(result_type, arguments[0])
